@@ -2,9 +2,10 @@ CONSTANTS
   FromCheck = TRUE
   CurrentCheck = TRUE
   OriginDecrement = FALSE
+  OriginTotal = TRUE
   DenomCheck = TRUE
   MaxTx = 1
   MaxOps = 2
 INIT Init
 NEXT Next
-INVARIANTS InvDecrease InvDenom InvCapsNeedGrant InvOriginSpent
+INVARIANTS InvDecrease InvDenom InvCapsNeedGrant InvOriginNet
